@@ -6,6 +6,7 @@ import sys
 
 import jsonpath_rfc9535 as jsonpath
 from jsonpath_rfc9535.__about__ import __version__
+from jsonpath_rfc9535.exceptions import JSONPathError
 from jsonpath_rfc9535.exceptions import JSONPathIndexError
 from jsonpath_rfc9535.exceptions import JSONPathSyntaxError
 from jsonpath_rfc9535.exceptions import JSONPathTypeError
@@ -120,6 +121,11 @@ def handle_path_command(args: argparse.Namespace) -> None:  # noqa: PLR0912, D10
             raise
         sys.stderr.write(f"index error: {err}\n")
         sys.exit(1)
+    except JSONPathError as err:
+        if args.debug:
+            raise
+        sys.stderr.write(f"error: {err}\n")
+        sys.exit(1)
 
     try:
         data = json.load(args.file)
@@ -134,6 +140,11 @@ def handle_path_command(args: argparse.Namespace) -> None:  # noqa: PLR0912, D10
         if args.debug:
             raise
         sys.stderr.write(f"type error: {err}\n")
+        sys.exit(1)
+    except JSONPathError as err:
+        if args.debug:
+            raise
+        sys.stderr.write(f"error: {err}\n")
         sys.exit(1)
 
     indent = INDENT if args.pretty else None
